@@ -176,7 +176,7 @@ def r2_pipeline(ctx):
         badg = sorted({g[2] for g in rows["gate"] if g[0] != g[1]})
         ctx.check(not badg, TN, "NumberType.convert", "a unit-less assignment (or an unchanged unit) is taken as it is; otherwise converted", detail=badg or None)
         ctx.check(all(x == [u] for x in rows["adopt"]), TN, "NumberType.convert", "after conversion the value carries the target unit", detail=sorted({str(x) for x in rows["adopt"]}))
-        ctx.check(bool(rows["env"]) and all(rows["env"]), TN, "NumberType.convert", "custom units of the environment are in scope during the conversion")
+        ctx.form(bool(rows["env"]) and all(rows["env"]), TN, "NumberType.convert", "custom units of the environment are in scope during the conversion")
 
 
 def _wrapper_classes(ctx):
@@ -254,8 +254,10 @@ def r4_final_checks(ctx):
     ctx.check(ok, DIP, "DIP.parse", "a validation loop over all nodes precedes the return")
     if ok:
         first = val[0].body[0]
-        ok2 = isinstance(first, ast.If) and norm(first.test) == "node.defined and node.value is None" and any(isinstance(x, ast.Raise) for x in first.body)
-        ctx.check(ok2, DIP, "DIP.parse", "a declared node without value makes parsing fail", detail=norm(first.test) if isinstance(first, ast.If) else None,
+        v = val[0].target.id if isinstance(val[0].target, ast.Name) else "node"
+        ok2 = isinstance(first, ast.If) and norm(first.test) in (f"{v}.defined and {v}.value is None", f"{v}.value is None and {v}.defined") \
+            and any(isinstance(x, ast.Raise) for x in first.body)
+        ctx.form(ok2, DIP, "DIP.parse", "a declared node without value makes parsing fail", detail=norm(first.test) if isinstance(first, ast.If) else None,
                   expected="node.defined and node.value is None -> raise")
         esc = [x for x in ast.walk(val[0]) if isinstance(x, (ast.Break, ast.Return))]
         ctx.check(not esc, DIP, "DIP.parse", "the validation loop visits every node (no early exit)", detail=[norm(x) for x in esc] or None)
